@@ -35,9 +35,12 @@ CFG = dict(
         "empty-circumcircle triangulation for EVERY point set in general position is kept as `def C20_full : Prop` (Props/C20.lean) and is not proved. "
         "The winding / positive-area / non-overlap / Delaunay / vertex / index clauses are decided per run by the verified checkers "
         "(c20_checkers_sound, vertices_check_sound) applied to the implementation's OUTPUT in exact arithmetic: sound per input, sampled over inputs",
-        "float residue of the UNCHANGED library, observed: when a far point is inserted after a triangle of three tightly clustered points exists "
-        "(spacing/distance < 2^-26) its float64 in-circle test cancels catastrophically and the output is not Delaunay / overlaps; the generators "
-        "avoid it (frame first, one cluster last, dyadic coordinates) — see notes",
+        "KNOWN FINDING C20-float-incircle-tight-cluster (unchanged library): a far point inserted after a triangle of three tightly clustered "
+        "points gets a float64 in-circle determinant whose sign is noise; output non-Delaunay and overlapping on distinct points in general "
+        "position. Measured onset: cluster spacing ≈ 2^5 ulps of the far coordinates (spacing/distance ≈ 2^-48: no failure at spacing 2^-37 vs "
+        "coordinates ~2^10, 4.5 % of random 7-point shapes at 2^-38, 36 % at 2^-46, 50 % at 2^-49). Recorded by a fixed 7-point witness "
+        "(ops c20.holds.delaunay_tight_cluster_witness / c20.holds.no_overlap_tight_cluster_witness, first lines of every stream; general "
+        "position proved in Lean by decide over ℤ); the random generators avoid the class (frame first, one cluster last, dyadic coordinates)",
         "Go evaluates orient / inCircle in float64 (rounding); all theorems are over exact arithmetic (ordered rings/fields). The oracle judges the float "
         "implementation's output against the exact predicates, so a float sign error on a near-degenerate input would show up as an oracle failure; generators keep predicates well-conditioned",
         "coverage of the convex hull is not part of C20 and not checked (a finite super-triangle may drop thin hull triangles; 3 nearly collinear points give zero triangles)",
@@ -74,6 +77,8 @@ CFG = dict(
         note="Trusted: Lean kernel + propext/Classical.choice/Quot.sound; harness and the driver's exact float decoding; hand transcription of "
              "bowyer_watson.go (tied on integer inputs). Not proved: correctness of the incremental algorithm for all inputs (C20_full); Go evaluates "
              "its predicates in float64 while the theorems are exact arithmetic; "
-             "As written C20 is satisfied by an empty result; hull coverage is not part of it.",
+             "As written C20 is satisfied by an empty result; hull coverage is not part of it. KNOWN FINDING on the unchanged library: far point inserted "
+             "after a tight cluster (spacing below ≈ 2^5 ulps of the far coordinates) → float64 in-circle sign noise → non-Delaunay, overlapping output "
+             "(fixed witness recorded on every run).",
         technique="Lean 4 proof of checker soundness + algorithm invariants; verified checker applied per input to the implementation's output in exact arithmetic; exact model-vs-impl comparison on integer inputs"),
 )
